@@ -55,4 +55,8 @@ alias from_strings_call := Genlm.fromStrings_forward
 alias from_strings_limit := Genlm.fromStrings_PL
 alias one_spec := Genlm.one_PN
 alias one_limit := Genlm.one_PL
+
+/-! ## re-checked tie to the source: the definitions REGENERATED from the Python functions on every run
+(`Generated/Builders.lean` / `Generated/Folds.lean`, by `harness/translate.py`) are the hand-written models the theorems here are about -/
+alias gen_WFSA_rename_eq_model := Genlm.gen_WFSA_rename_eq_model
 end Genlm.Props.C12
